@@ -216,6 +216,19 @@ def mutate_doc(rng, tree, vocab):
             return None, name
         extra = r.choice([ops[0], _with(ops[0], name=None), _with(ops[0], operation=A.OperationType.SUBSCRIPTION)])
         return apply(A.DocumentNode, 0, lambda h: _with(h, definitions=tuple(h.definitions) + (extra,))), name
+    if name == 'ill_typed_directive_argument':
+        # @include(if: "x"), @defer(label: 1), @stream(initialCount: "2"): directive arguments are coerced by the rules that
+        # collect fields, not only by the rule that checks literals
+        n = choose(A.DirectiveNode, lambda m: m.arguments)
+        if n is None:
+            return None, name
+        k = r.randrange(len(n.arguments))
+        other = r.choice([A.IntValueNode(value='1'), A.StringValueNode(value='x'), A.BooleanValueNode(value=True), A.NullValueNode(),
+                          A.ListValueNode(values=()), A.ObjectValueNode(fields=()), A.EnumValueNode(value='X'), A.FloatValueNode(value='1.5')])
+        if type(other) is type(n.arguments[k].value):
+            other = A.ObjectValueNode(fields=())
+        args = tuple(_with(a, value=other) if i == k else a for i, a in enumerate(n.arguments))
+        return apply(A.DirectiveNode, ordinal(n), lambda h: _with(h, arguments=args)), name
     if name == 'same_field_under_two_types':
         # the very same field text under two type conditions: `... on Dog { lives } ... on Cat { lives }`; whether it is a
         # conflict depends on the two definitions (and on whether the parent types can overlap), never on the text
@@ -243,7 +256,7 @@ MUTATORS = ['rename_field', 'collide_alias', 'drop_alias', 'drop_argument', 'dup
             'drop_variable_definition', 'dup_variable_definition', 'change_variable_type', 'change_variable_default',
             'rename_variable_use', 'fragment_cycle', 'change_type_condition', 'unknown_spread', 'add_directive',
             'drop_selection_set', 'add_selection_set', 'reorder_object_fields', 'dup_object_field', 'dup_operation', 'dup_fragment',
-            'same_field_under_two_types']
+            'same_field_under_two_types', 'ill_typed_directive_argument', 'ill_typed_directive_argument']
 
 
 def _with(node, **changes):
